@@ -1266,6 +1266,10 @@ func (ex *Exec) specForm(st *State, name string, call *ast.CallExpr, sc *SpecCtx
 		for _, a := range call.Args {
 			args = append(args, ex.eval(st, a, sc))
 		}
+		if name == "owns" && len(args) == 1 && args[0].Loc != nil && !args[0].Loc.Heap {
+			// a pointer to a local copy: nobody else can hold it yet
+			return one(ex.boolVal("true"))
+		}
 		s := st
 		if sc.inOld {
 			s = sc.old
